@@ -3,6 +3,9 @@
 //! This library aims to provide a compatible API with ZeroMQ patterns
 //! while leveraging Rust's safety and Tokio's asynchronous capabilities.
 
+// `rzmq_verif` is a verification-only cfg (set via RUSTFLAGS by the model-checking harness).
+#![allow(unexpected_cfgs)]
+
 // These modules encapsulate different aspects of the ZMQ implementation.
 
 /// Defines the `Context`, which is the entry point for creating sockets.
@@ -29,6 +32,9 @@ pub(crate) mod throttle;
 pub(crate) mod profiler;
 
 pub(crate) mod observability;
+
+#[cfg(rzmq_verif)]
+pub mod verif;
 
 #[cfg(feature = "io-uring")]
 pub mod io_uring_backend;
